@@ -18,6 +18,7 @@ where
     fn from_json(v: &Value) -> Self;
     fn ref_from_json(v: &Value) -> Self::Ref;
     fn to_ref(&self) -> Self::Ref;
+    fn ref_to_json(r: &Self::Ref) -> Value;
     /// weight of a reference value as the pivot condition `Weight(w)` understands it
     fn ref_weight(r: &Self::Ref) -> f64;
     /// a random value; `kind`: 0 = anything small, 1 = +-1, 2 = a unit, 3 = a non-unit non-zero
@@ -43,6 +44,9 @@ impl SimRing for i64 {
     fn to_ref(&self) -> Z {
         Z(BigInt::from(*self))
     }
+    fn ref_to_json(r: &Z) -> Value {
+        json!(r.0.to_i64().expect("reference value fits i64"))
+    }
     fn ref_weight(r: &Z) -> f64 {
         r.0.to_f64().unwrap().abs()
     }
@@ -66,6 +70,9 @@ impl SimRing for Ratio<i64> {
     }
     fn to_ref(&self) -> Q {
         Q::new(BigInt::from(*self.numer()), BigInt::from(*self.denom()))
+    }
+    fn ref_to_json(r: &Q) -> Value {
+        json!([r.n.to_i64().expect("fits"), r.d.to_i64().expect("fits")])
     }
     fn ref_weight(r: &Q) -> f64 {
         f64::max(r.n.to_f64().unwrap().abs(), r.d.to_f64().unwrap().abs())
@@ -92,6 +99,9 @@ macro_rules! ff_impl {
             }
             fn to_ref(&self) -> Fp<$p> {
                 Fp::<$p>::new(*self.rep() as i64)
+            }
+            fn ref_to_json(r: &Fp<$p>) -> Value {
+                json!(r.0)
             }
             fn ref_weight(r: &Fp<$p>) -> f64 {
                 if r.0 == 0 { 0.0 } else { 1.0 }
@@ -133,6 +143,9 @@ impl SimRing for ZH {
         }
         s
     }
+    fn ref_to_json(r: &RPoly2<Z>) -> Value {
+        Value::Array(r.0.iter().map(|((eh, _), c)| json!([eh, c.0.to_i64().expect("fits")])).collect())
+    }
     fn ref_weight(r: &RPoly2<Z>) -> f64 {
         if r.is_zero() { 0.0 } else { 1.0 }
     }
@@ -166,6 +179,9 @@ impl SimRing for ZI {
     }
     fn to_ref(&self) -> GaussZ {
         GaussZ(BigInt::from(*self.left()), BigInt::from(*self.right()))
+    }
+    fn ref_to_json(r: &GaussZ) -> Value {
+        json!([r.0.to_i64().expect("fits"), r.1.to_i64().expect("fits")])
     }
     fn ref_weight(r: &GaussZ) -> f64 {
         if r.is_zero() { 0.0 } else { 1.0 }
@@ -221,6 +237,21 @@ where
     refmodel::DM::from_entries(m, n, v["entries"].as_array().unwrap().iter().map(|e| {
         (e[0].as_u64().unwrap() as usize, e[1].as_u64().unwrap() as usize, R::ref_from_json(&e[2]))
     }))
+}
+
+pub fn dm_to_json<R: SimRing>(a: &refmodel::DM<R::Ref>) -> Value
+where
+    for<'x> &'x R: RingOps<R>,
+{
+    let mut es = vec![];
+    for i in 0..a.rows {
+        for j in 0..a.cols {
+            if !a.get(i, j).is_zero() {
+                es.push(json!([i, j, R::ref_to_json(a.get(i, j))]));
+            }
+        }
+    }
+    json!({ "m": a.rows, "n": a.cols, "entries": es })
 }
 
 pub fn spmat_to_dm<R: SimRing>(a: &yui_matrix::sparse::SpMat<R>) -> refmodel::DM<R::Ref>
